@@ -604,8 +604,11 @@ fn decorate_resources(r: &mut Rng, doc: &mut Document, leaves: &[ObjectId]) {
     for p in leaves {
         let mut res = Dictionary::new();
         if r.chance(2, 3) { res.set("Font", Object::Dictionary(sub(r, &ids))); }
-        match r.below(4) { 0 => {} 1 => { res.set("XObject", Object::Dictionary(sub(r, &ids))); }
+        match r.below(6) { 0 => {} 1 => { res.set("XObject", Object::Dictionary(sub(r, &ids))); }
             2 => { let x = doc.add_object(Object::Dictionary(sub(r, &ids))); res.set("XObject", Object::Reference(x)); }
+            3 => { let x = doc.add_object(Object::Dictionary(sub(r, &ids))); res.set("ExtGState", Object::Reference(x)); }
+            4 => { let x = doc.add_object(Object::Dictionary(sub(r, &ids))); res.set("ExtGState", Object::Reference(x));
+                   let y = doc.add_object(Object::Dictionary(sub(r, &ids))); res.set("XObject", Object::Reference(y)); }
             _ => { res.set("ExtGState", Object::Dictionary(sub(r, &ids))); } }
         let v = match r.below(4) {
             0 => None,                                               // inherited (or none at all)
@@ -631,7 +634,9 @@ fn decorate_resources_high(r: &mut Rng, doc: &mut Document, leaves: &[ObjectId])
         if cat == b"Font" || r.chance(1, 2) {
             let mut d = Dictionary::new();
             for n in [&b"F1"[..], b"Im1", b"GS0"].iter().take(1 + r.usize(3)) { d.set(n.to_vec(), Object::Reference(*r.pick(&ids))); }
-            res.set(cat.to_vec(), Object::Dictionary(d));
+            // a category dictionary may itself be an indirect object (`/ExtGState 7 0 R`)
+            if cat != b"Font" && r.chance(1, 3) { let x = doc.add_object(Object::Dictionary(d)); res.set(cat.to_vec(), Object::Reference(x)); }
+            else { res.set(cat.to_vec(), Object::Dictionary(d)); }
         }
     }
     let v = if r.chance(1, 3) { Object::Reference(doc.add_object(Object::Dictionary(res))) } else { Object::Dictionary(res) };
